@@ -178,6 +178,9 @@ func init() {
 			if allConcrete(a) {
 				return f(a)
 			}
+			if r, ok := structStringFn(name, a); ok {
+				return r
+			}
 			if prev != nil {
 				return prev(fr, a)
 			}
@@ -230,6 +233,36 @@ func init() {
 		n, err := strconv.ParseFloat(s, a[1].(int))
 		return tuple{n, errRes(fr, err)}
 	}
+}
+
+// structStringFn: package-strings functions decided on the structure of a symbolic string.
+func structStringFn(name string, a []value) (value, bool) {
+	switch name {
+	case "strings.Split", "strings.SplitN", "strings.Cut":
+		sep, ok := a[1].(string)
+		if !ok {
+			return nil, false
+		}
+		n := -1
+		if name == "strings.SplitN" {
+			n = a[2].(int)
+		}
+		if name == "strings.Cut" {
+			n = 2
+		}
+		parts, ok := splitStruct(a[0], sep, n)
+		if !ok {
+			return nil, false
+		}
+		if name == "strings.Cut" {
+			if len(parts) == 2 {
+				return tuple{parts[0], parts[1], true}, true
+			}
+			return tuple{parts[0], "", false}, true
+		}
+		return []value(parts), true
+	}
+	return nil, false
 }
 
 // symStringFn models a few package-strings functions on symbolic operands.
